@@ -15,9 +15,9 @@ from .core import mkstate, enc
 
 D = decimal.Decimal
 ALPHA = {
-    'string': ['a', 'a,b', 'q"q', 'l1\nl2', 'é😀', '', 'C:\\t\\n', "'", ';|x'],
+    'string': ['a', 'a,b', 'q"q', 'l1\nl2', 'é😀', '', 'C:\\t\\n', "'", ';|x', ' lead'],
     'integer': [-1, 0, 10 ** 20],
-    'number': [-1, 0.1, D('1.000000000000000000001'), 1e-7, D('1E+2')],
+    'number': [-1, 0.1, D('1.000000000000000000001'), 1e-7, D('1E+2'), D('1234567890.1234567890123456789012345')],
     'boolean': [True, False],
     'date': [datetime.date(2020, 1, 2), datetime.date(999, 12, 31)],
     'time': [datetime.time(1, 2, 3), datetime.time(23, 59, 59)],
@@ -29,10 +29,13 @@ ALPHA = {
 TEMPORAL_FMT = {'date': '%d/%m/%Y', 'time': '%Hh%Mm%Ss', 'datetime': '%d/%m/%Y %H:%M:%S'}
 
 
-def typed_eq(a, b, double=False):
-    """Typed equality; numbers by exact Decimal value (CSV) or by IEEE double (JSON)."""
+def typed_eq(a, b, double=False, strip=False):
+    """Typed equality; numbers by exact Decimal value (CSV) or by IEEE double (JSON). strip: text compared modulo leading
+    and trailing blanks (load() strips by default, as documented)."""
     if a is None or b is None:
         return a is None and b is None
+    if strip and isinstance(a, str) and isinstance(b, str):
+        return a.strip() == b.strip()
     num = (int, float, D)
     if isinstance(a, num) and isinstance(b, num) and not isinstance(a, bool) and not isinstance(b, bool):
         if double:
@@ -45,8 +48,8 @@ def typed_eq(a, b, double=False):
     return type(a) is type(b) and a == b
 
 
-def rows_eq(x, y, double=False):
-    return len(x) == len(y) and all(r.keys() == s.keys() and all(typed_eq(r[k], s[k], double) for k in r) for r, s in zip(x, y))
+def rows_eq(x, y, double=False, strip=False):
+    return len(x) == len(y) and all(r.keys() == s.keys() and all(typed_eq(r[k], s[k], double, strip) for k in r) for r, s in zip(x, y))
 
 
 TEMPORAL_FMT2 = {'date': '%Y.%m.%d', 'time': '%S-%M-%H', 'datetime': '%Y.%m.%d %H-%M-%S'}
@@ -151,6 +154,15 @@ def decode_resource(root, r):
     fields = [tableschema.Field(f, missing_values=mv) for f in r['schema']['fields']]
     byname = {f.name: f for f in fields}
     rows = []
+    if fp.endswith('.xlsx'):
+        import openpyxl
+        wb = openpyxl.load_workbook(fp, read_only=True)
+        try:
+            cells = [list(row) for row in wb.worksheets[0].iter_rows(values_only=True)]
+        finally:
+            wb.close()
+        header = cells[0] if cells else []
+        return [dict(zip(header, c)) for c in cells[1:]]       # raw cell values (no casts): used for row counts only
     if r.get('format') == 'json':
         with open(fp, encoding=r.get('encoding', 'utf-8')) as fh:
             for item in json.load(fh):
